@@ -25,7 +25,7 @@ def main():
             lines = [l for l in r.stdout.split("\n") if l.startswith("VIOLATION") or l.startswith("[") or l.startswith("  failing input") or l.startswith("  observed") or l.startswith("  theorem") or l.startswith("  correspondence")]
             res[p] = (r.returncode, lines)
             print(f"== {p}: rc={r.returncode}")
-            for l in lines[:8]: print("   ", l[:300])
+            for l in lines[:8]: print("   ", l[:300] + (" ... " + l[-40:] if len(l) > 300 else ""))
     finally:
         subprocess.run(["git", "-C", "/repo", "checkout", "--", "."], check=True)
         subprocess.run(["git", "-C", "/repo", "clean", "-fdq", "crates"], check=False)
